@@ -52,6 +52,8 @@ VARIABLES acc, val, wq, rec, rel,          \* live content
           fl,                              \* the last committed roots are flushed
           garb,                            \* an older, never flushed commit exists in the cache
           fo,                              \* a Flush happened in this behaviour
+          ch,                              \* live contents at the last (up to 4) Commits of this Database, oldest first
+          orec, hasOther,                  \* staking records of the most recent frozen object (copy or original), once one exists
           clean,                           \* "root" | "commit" right after such a point, "" after any write
           copyOk,                          \* the copy taken by the last step can be read and equals the original
           failed, hist
@@ -59,7 +61,8 @@ live  == <<acc, val, wq, rec, rel>>
 tries == <<tacc, tval, twq, trec, trel>>
 book  == <<dAcc, oDirty, dCode, dDl, dVal, dRec, dRel, jd, unex, nod, zomb>>
 node  == <<dsk, cacc, fl, garb, fo>>
-vars  == <<live, tries, blobs, book, node, clean, copyOk, failed, hist>>
+aux   == <<ch, orec, hasOther>>
+vars  == <<live, tries, blobs, book, node, aux, clean, copyOk, failed, hist>>
 
 Fixed(x) == x \in Fix
 
@@ -89,17 +92,18 @@ Init == /\ acc = SeedAcc /\ val = SeedVal /\ wq = <<>>
         /\ dsk = [tr |-> <<[a \in Accts |-> ZeroAcc], [v \in Vals |-> NoVal], <<>>, [k \in RecKeys |-> NoRec], {}>>,
                   blobs |-> [code |-> {}, dl |-> {}, st |-> {}]]
         /\ cacc = tacc /\ fl = TRUE /\ garb = FALSE /\ fo = FALSE
+        /\ ch = <<>> /\ orec = rec /\ hasOther = FALSE
         /\ clean = (IF Seeded THEN "" ELSE "commit") /\ copyOk = TRUE /\ failed = FALSE
         /\ hist = (IF Seeded THEN Prelude ELSE <<>>)
 
 Rec(name, a, v, d, s, r, h) == [op |-> name, a |-> a, v |-> v, d |-> d, s |-> s, r |-> r, h |-> h]
 \* generated behaviours start with a write (control points on the untouched starting state say nothing)
-ControlOps == {"Root", "Commit", "Reload", "Copy", "CopySwap", "Finalise", "Flush", "GC", "Restart"}
+ControlOps == {"Root", "Commit", "Reload", "Copy", "CopySwap", "Finalise", "Flush", "GC", "Restart", "ReloadOld"}
 Tick(r) == /\ Len(hist) < MaxOps /\ ~failed
            /\ (GenMode = "leaf" /\ Len(hist) = 0) => r.op \notin ControlOps
            /\ hist' = Append(hist, r)
 
-Write == clean' = "" /\ copyOk' = TRUE /\ UNCHANGED <<tries, blobs, failed, unex, zomb, node>>
+Write == clean' = "" /\ copyOk' = TRUE /\ UNCHANGED <<tries, blobs, failed, unex, zomb, node, aux>>
 Touch(a) == nod' = nod \ {a}      \* a journal entry: the next Finalise puts the object into stateObjectsDirty again
 
 \* ---------------------------------------------------------------- accounts
@@ -157,12 +161,25 @@ RemoveWithdraw(i) ==
    /\ wq' = SubSeq(wq, 1, i - 1) \o SubSeq(wq, i + 1, Len(wq))
    /\ UNCHANGED <<acc, val, rec, rel, book>> /\ Write
 \* AddStakingRecord(d, v, txHash, value): value -1 = nil, h 0 = no hash
+MaxTx == IF Alpha = "recs" THEN 2 ELSE 7
 AddRecord(a, v, h, d) ==
-   /\ Len(rec[<<a, v>>].tx) < 2
+   /\ Len(rec[<<a, v>>].tx) < MaxTx
    /\ Tick(Rec("AddRecord", a, v, d, 0, 0, h))
    /\ rec' = [rec EXCEPT ![<<a, v>>] = [ex |-> TRUE, val |-> IF d >= 0 THEN d ELSE @.val, tx |-> IF h > 0 THEN Append(@.tx, h) ELSE @.tx]]
    /\ dRec' = dRec \cup {<<a, v>>}
    /\ UNCHANGED <<acc, val, wq, rel, dAcc, oDirty, dCode, dDl, dVal, dRel, jd, nod>> /\ Write
+\* the same call on the most recent FROZEN object (the copy after Copy, the original after CopySwap): both sides of a copy
+\* go on recording; the main object must not notice
+AddRecordOther(a, v, h, d) ==
+   /\ hasOther /\ Len(orec[<<a, v>>].tx) < MaxTx
+   /\ Tick(Rec("AddRecordOther", a, v, d, 0, 0, h))
+   /\ orec' = [orec EXCEPT ![<<a, v>>] = [ex |-> TRUE, val |-> IF d >= 0 THEN d ELSE @.val, tx |-> IF h > 0 THEN Append(@.tx, h) ELSE @.tx]]
+   /\ UNCHANGED <<live, tries, blobs, book, node, ch, hasOther, clean, copyOk, failed>>
+\* state.New(k-th last committed roots) through the SAME Database while the live object has gone on: a read-only probe
+ReloadOld(k) ==
+   /\ k <= Len(ch)
+   /\ Tick(Rec("ReloadOld", 0, 0, k, 0, 0, 0))
+   /\ UNCHANGED <<live, tries, blobs, book, node, aux, clean, copyOk, failed>>
 AddRel(a, v) ==
    /\ Tick(Rec("AddRel", a, v, 0, 0, 0, 0))
    /\ rel' = rel \cup {<<a, v>>}
@@ -181,7 +198,7 @@ Finalise ==
    /\ acc' = NormAcc(acc, jd)
    /\ jd' = {}
    /\ clean' = "" /\ copyOk' = TRUE
-   /\ UNCHANGED <<val, wq, rec, rel, tries, blobs, dAcc, oDirty, dCode, dDl, dVal, dRec, dRel, failed, unex, nod, zomb, node>>
+   /\ UNCHANGED <<val, wq, rec, rel, tries, blobs, dAcc, oDirty, dCode, dDl, dVal, dRec, dRel, failed, unex, nod, zomb, node, aux>>
 
 \* the three tries after IntermediateRoot
 RootEffect ==
@@ -203,7 +220,7 @@ Root ==
    /\ RootEffect
    /\ oDirty' = oDirty \cup (dAcc \ nod) /\ nod' = {}
    /\ clean' = "root" /\ copyOk' = TRUE
-   /\ UNCHANGED <<blobs, dCode, dDl, failed, node>>
+   /\ UNCHANGED <<blobs, dCode, dDl, failed, node, aux>>
 
 \* Commit: code and delegation-list blobs of the objects in stateObjectsDirty that are not deleted
 CommitEffect ==
@@ -215,6 +232,8 @@ CommitEffect ==
       /\ dCode' = dCode \ W /\ dDl' = dDl \ W
    /\ oDirty' = {} /\ nod' = {}
    /\ cacc' = tacc' /\ fl' = FALSE /\ garb' = (garb \/ ~fl) /\ UNCHANGED <<dsk, fo>>
+   /\ ch' = LET q == Append(ch, <<acc', val', wq', rec', rel'>>) IN IF Len(q) > 4 THEN Tail(q) ELSE q
+   /\ UNCHANGED <<orec, hasOther>>
 
 \* what state.New(roots) can read
 Readable == \A a \in Accts : /\ (tacc[a].code = 0 \/ tacc[a].code \in blobs.code)
@@ -248,7 +267,7 @@ Flush ==
    /\ Tick(Rec("Flush", 0, 0, 0, 0, 0, 0))
    /\ dsk' = [tr |-> <<tacc, tval, twq, trec, trel>>, blobs |-> Both(dsk.blobs, Reach(tacc, blobs))]
    /\ fl' = TRUE /\ fo' = TRUE
-   /\ UNCHANGED <<live, tries, blobs, book, cacc, garb, clean, copyOk, failed>>
+   /\ UNCHANGED <<live, tries, blobs, book, cacc, garb, clean, copyOk, failed, aux>>
 \* Dereference of the older, never flushed roots, then Cap(0): what only they referenced leaves the cache, the rest of the
 \* cache is written out
 GC ==
@@ -257,7 +276,7 @@ GC ==
    /\ blobs' = Both(Reach(cacc, blobs), dsk.blobs)
    /\ dsk' = [dsk EXCEPT !.blobs = Both(@, blobs')]
    /\ garb' = FALSE
-   /\ UNCHANGED <<live, tries, book, cacc, fl, fo, clean, copyOk, failed>>
+   /\ UNCHANGED <<live, tries, book, cacc, fl, fo, clean, copyOk, failed, aux>>
 \* a restart: state.New(last flushed roots) over a fresh state.Database (empty cache) on the same disk
 DiskReadable == \A a \in Accts : LET r == dsk.tr[1][a] IN
                    /\ (r.code = 0 \/ r.code \in dsk.blobs.code)
@@ -272,6 +291,7 @@ Restart ==
    /\ dAcc' = {} /\ oDirty' = {} /\ dCode' = {} /\ dDl' = {} /\ dVal' = {} /\ dRec' = {} /\ dRel' = FALSE
    /\ jd' = {} /\ unex' = {} /\ nod' = {} /\ UNCHANGED zomb
    /\ cacc' = dsk.tr[1] /\ fl' = TRUE /\ garb' = FALSE /\ UNCHANGED <<dsk, fo>>
+   /\ ch' = <<dsk.tr>> /\ UNCHANGED <<orec, hasOther>>
    /\ clean' = "commit" /\ copyOk' = TRUE
    /\ failed' = ~DiskReadable
 
@@ -301,7 +321,8 @@ CopyStep(name) ==
    \* dirty loop, so they are not in the copy's stateObjectsDirty
    /\ nod' = IF name = "CopySwap" /\ ~Fixed("copydirty") THEN nod \cup (dAcc \ jd) ELSE nod
    /\ oDirty' = IF name = "CopySwap" /\ ~Fixed("copydirty") THEN oDirty \ (dAcc \ jd) ELSE oDirty
-   /\ UNCHANGED <<val, wq, rec, rel, tries, blobs, dAcc, dCode, dVal, dRec, dRel, clean, zomb, node>>
+   /\ orec' = rec /\ hasOther' = TRUE      \* the object nobody continues on (copy or original) holds the current records
+   /\ UNCHANGED <<val, wq, rec, rel, tries, blobs, dAcc, dCode, dVal, dRec, dRel, clean, zomb, node, ch>>
 
 \* ---------------------------------------------------------------- next-state relations
 Bounded == /\ \A a \in Accts : acc[a].bal <= 6
@@ -326,6 +347,30 @@ NextDeleg2 ==    \* a delegator with two delegations: full withdrawals and re-de
 NextDisk ==      \* what reaches the disk: code, storage, delegation list of an account with and without code, validator and staking tries
    \/ SetCode(1, 1) \/ SetState(1, 1, 5) \/ Delegate(1, 7) \/ AddRecord(0, 1, 1, 9)
    \/ Commit \/ Flush \/ GC \/ Restart
+\* ---- alphabets whose behaviours start with a fixed prelude executed by the model itself
+DynPrelude == CASE Alpha = "slots" -> <<Rec("SetState", 1, 0, 5, 1, 0, 0), Rec("AddBalance", 2, 0, 1, 0, 0, 0), Rec("Commit", 0, 0, 0, 0, 0, 0)>>
+                [] Alpha = "old"   -> <<Rec("AddBalance", 2, 0, 1, 0, 0, 0), Rec("Commit", 0, 0, 0, 0, 0, 0)>>
+                [] Alpha = "recs2" -> <<Rec("AddRecord", 0, 1, -1, 0, 0, 1), Rec("AddRecord", 0, 1, -1, 0, 0, 2), Rec("AddRecord", 0, 1, -1, 0, 0, 1)>>
+                [] OTHER -> <<>>
+InPrelude == Len(hist) < Len(DynPrelude)
+PreludeStep ==
+   LET p == DynPrelude[Len(hist) + 1] IN
+   CASE p.op = "SetState"   -> SetState(p.a, p.s, p.d)
+     [] p.op = "AddBalance" -> AddBalance(p.a, p.d)
+     [] p.op = "AddRecord"  -> AddRecord(p.a, p.v, p.h, p.d)
+     [] p.op = "Commit"     -> Commit
+     [] OTHER -> FALSE
+NextSlots ==     \* storage writes grouped by transaction ends (Finalise) and block ends: a slot with a committed non-zero original
+                 \* (account 1 slot 1 = 5) and a fresh slot (account 2 slot 1), values {original, other, zero}, write-backs
+   \/ \E x \in {0, 5, 6} : SetState(1, 1, x)
+   \/ \E y \in {0, 5} : SetState(2, 1, y)
+   \/ Finalise \/ Root \/ Commit
+NextOld ==       \* the live object goes on after a commit (all three tries); earlier roots are reopened through the same Database
+   \/ AddBalance(2, 1) \/ CreateValidator(1, 15) \/ AddRecord(0, 1, 1, 9)
+   \/ Root \/ Commit \/ ReloadOld(1) \/ ReloadOld(2)
+NextRecs2 ==     \* a staking record with a history of three hashes; both sides of a copy go on recording for the same pair
+   \/ AddRecord(0, 1, 2, 9) \/ AddRecordOther(0, 1, 1, 4)
+   \/ CopyStep("Copy") \/ CopyStep("CopySwap") \/ Reload \/ Root
 NextRich ==
    \/ \E a \in Accts : \/ \E d \in {1, 2} : AddBalance(a, d) \/ SubBalance(a, d)
                        \/ \E n \in {1, 2} : SetNonce(a, n) \/ SetCode(a, n)
@@ -338,9 +383,13 @@ NextRich ==
    \/ \E a \in {0, 1}, v \in Vals, h \in {0, 1, 2}, d \in {-1, 4, 9} : (h > 0 \/ d >= 0) /\ AddRecord(a, v, h, d)
    \/ \E a \in Accts, v \in Vals : AddRel(a, v)
    \/ Control \/ Reload \/ Finalise \/ CopyStep("CopySwap") \/ Flush \/ GC \/ Restart
+   \/ \E k \in 1..4 : ReloadOld(k)
+   \/ \E a \in {0, 1}, v \in Vals, h \in {1, 2}, d \in {-1, 4} : AddRecordOther(a, v, h, d)
 
 Next == /\ Bounded
-        /\ CASE Alpha = "acct" -> NextAcct [] Alpha = "macct" -> (NextAcct \/ Reload) [] Alpha = "val" -> NextVal [] Alpha = "recs" -> NextRecs [] Alpha = "disk" -> NextDisk [] Alpha = "deleg2" -> NextDeleg2 [] OTHER -> NextRich
+        /\ IF InPrelude THEN PreludeStep ELSE
+           CASE Alpha = "acct" -> NextAcct [] Alpha = "macct" -> (NextAcct \/ Reload) [] Alpha = "val" -> NextVal [] Alpha = "recs" -> NextRecs [] Alpha = "disk" -> NextDisk [] Alpha = "deleg2" -> NextDeleg2
+             [] Alpha = "slots" -> NextSlots [] Alpha = "old" -> NextOld [] Alpha = "recs2" -> NextRecs2 [] OTHER -> NextRich
 Spec == Init /\ [][Next]_vars
 
 \* ---------------------------------------------------------------- property layer
@@ -356,5 +405,5 @@ DiskHoldsCommitted == ((fl /\ clean = "commit") => (dsk.tr = live /\ DiskReadabl
 
 \* ---------------------------------------------------------------- generation
 Leaf == (GenMode = "leaf" /\ (Len(hist) = MaxOps \/ failed)) => PrintT("@@J " \o ToJson([kind |-> "B", h |-> hist]))
-View == <<live, tries, blobs, book, node, clean, copyOk, failed>>
+View == <<live, tries, blobs, book, node, aux, clean, copyOk, failed>>
 =============================================================================
